@@ -9,6 +9,11 @@ pub enum Call {
     Gen,
     Arb(Vec<u8>),
     Reset,
+    /// the caller re-configures the generator between calls through its public fields: protocol version
+    /// (`state.version`) and opcode range; the next results must be those of a fresh generator configured that way
+    Reconf(usize, usize, usize),
+    /// the caller replaces the seed (`seed` field) and toggles the two opt-in flags
+    Reseed(u64, bool, bool),
 }
 
 impl Call {
@@ -17,6 +22,8 @@ impl Call {
             Call::Gen => "g".to_string(),
             Call::Arb(b) => format!("a{}", if b.is_empty() { "-".to_string() } else { hex(b) }),
             Call::Reset => "r".to_string(),
+            Call::Reconf(v, a, b) => format!("c{}:{}:{}", v, a, b),
+            Call::Reseed(sd, e, b) => format!("s{}:{}:{}", sd, *e as u8, *b as u8),
         }
     }
 }
@@ -27,6 +34,17 @@ pub fn parse_calls(s: &str) -> Vec<Call> {
         .map(|t| match t.as_bytes()[0] {
             b'g' => Call::Gen,
             b'r' => Call::Reset,
+            b'c' => {
+                let mut it = t[1..].split(':').map(|x| x.parse::<usize>().unwrap_or(0));
+                Call::Reconf(it.next().unwrap_or(0), it.next().unwrap_or(0), it.next().unwrap_or(0))
+            }
+            b's' => {
+                let mut it = t[1..].split(':');
+                let sd = it.next().and_then(|x| x.parse::<u64>().ok()).unwrap_or(0);
+                let e = it.next() == Some("1");
+                let b = it.next() == Some("1");
+                Call::Reseed(sd, e, b)
+            }
             _ => Call::Arb(if &t[1..] == "-" { vec![] } else { crate::unhex(&t[1..]) }),
         })
         .collect()
@@ -36,6 +54,18 @@ fn do_call(c: &Case, g: &mut pickle_fuzzer::Generator, call: &Call) -> Option<Re
     match call {
         Call::Reset => {
             g.reset();
+            None
+        }
+        Call::Reconf(v, a, b) => {
+            g.state.version = pickle_fuzzer::Version::try_from(*v).unwrap();
+            g.min_opcodes = *a;
+            g.max_opcodes = *b;
+            None
+        }
+        Call::Reseed(sd, e, b) => {
+            g.seed = Some(*sd);
+            g.allow_ext_opcodes = *e;
+            g.allow_buffer_opcodes = *b;
             None
         }
         Call::Gen => {
@@ -71,9 +101,25 @@ fn res_str(r: &Option<Result<Vec<u8>, String>>) -> String {
 
 pub fn hist_line(c: &Case, calls: &[Call]) -> String {
     let got = run_history(c, calls);
-    let last_gen = calls.iter().rev().find(|x| !matches!(x, Call::Reset)).cloned();
-    let fresh = match &last_gen {
-        Some(call) => run_history(c, std::slice::from_ref(call)),
+    let last_idx = calls.iter().rposition(|x| matches!(x, Call::Gen | Call::Arb(_)));
+    // the configuration in force at the last generating call
+    let mut eff = c.clone();
+    if let Some(li) = last_idx {
+        for call in &calls[..li] {
+            if let Call::Reconf(v, a, b) = call {
+                eff.proto = *v;
+                eff.min = *a;
+                eff.max = *b;
+            }
+            if let Call::Reseed(sd, e, b) = call {
+                eff.mode = Mode::Rand(*sd);
+                eff.ext = *e;
+                eff.buf = *b;
+            }
+        }
+    }
+    let fresh = match last_idx {
+        Some(li) => run_history(&eff, std::slice::from_ref(&calls[li])),
         None => None,
     };
     let same = res_str(&got) == res_str(&fresh);
@@ -153,7 +199,21 @@ pub fn cmd_hist(args: &[String]) {
             let b = rng.bytes(8);
             calls = vec![Call::Arb(b.clone()), Call::Arb(b)];
         }
-        if !calls.iter().any(|x| !matches!(x, Call::Reset)) {
+        // a caller that re-configures the object between calls (public fields): another protocol, another range
+        if id % 5 == 3 {
+            let v = rng.below(6) as usize;
+            let (a, b) = if rng.coin() { (c.min, c.max) } else { (5 + rng.below(20) as usize, 30 + rng.below(60) as usize) };
+            let pos = 1 + rng.below(calls.len() as u64) as usize;
+            calls.insert(pos.min(calls.len()), Call::Reconf(v, a, b));
+            if rng.coin() {
+                calls.push(Call::Reset);
+            }
+            if rng.coin() {
+                calls.push(Call::Reseed(rng.next() % 100000, rng.coin(), rng.coin()));
+            }
+            calls.push(if rng.coin() { Call::Gen } else { Call::Arb(rng.bytes(40)) });
+        }
+        if !calls.iter().any(|x| matches!(x, Call::Gen | Call::Arb(_))) {
             calls.push(Call::Gen);
         }
         println!("{}", hist_line(&c, &calls));
